@@ -51,7 +51,7 @@ ASSUMPTIONS = [
 REQUIRED_COUNTERS = ["runs", "nd_families", "nd_partitions_compared", "nd_nonzero_families", "nd_multi_readout_partitions",
                      "nd_close_cut_partitions", "destr_families", "destr_frames_compared", "destr_rescheduled_runs",
                      "destr_nonzero_families", "families_start_positive", "families_start_negative", "families_start_zero"]
-TIMEOUT = {"quick": 600, "thorough": 3000}
+TIMEOUT = {"quick": 900, "thorough": 7200}
 LEVEL_TEXT = ("Exploration by runtime monitoring: every generated pipeline of deterministic flux-integrating models is "
               "executed by the real exposure loop under several readout schedules of the same interval (non-destructive) "
               "and under re-scaled / shifted schedules (destructive); the returned pixel slices are compared with each "
